@@ -51,13 +51,13 @@ contract("prop::C10.caller_lists_untouched", params=dict(cnarr=ObjT("CopyNumArra
 # ----------------------------------------------------------------------------- repeatability, RNG and worker independence
 def _gen_repeat(rng, tier, i):
     """pipeline steps run twice on equal inputs under different states of the numpy / python random generators and
-    with 1 vs N worker processes: segment (none, haar), segmetrics with bootstrap CI, fix with corrections, call,
+    with 1 vs N worker processes: segment (none, haar), segmetrics with bootstrap CI (plain and smoothed), fix with corrections, call,
     center_all on a copy, shuffle+sort"""
     if i >= (60 if tier == "quick" else 1500):
         return None
-    step = ["segment_haar", "segment_none", "segmetrics", "fix", "bintest", "shuffle_sort"][i % 6]
+    step = ["segment_haar", "segment_none", "segmetrics", "fix", "bintest", "shuffle_sort", "segmetrics_smoothed"][i % 7]
     cn = _bin_table(rng, tier, nchrom=rng.randint(1, 3), nbins=40 if step == "fix" else None)
-    if step in ("segmetrics", "bintest", "fix"):
+    if step in ("segmetrics", "segmetrics_smoothed", "bintest", "fix"):
         # weighted segment statistics are undefined when all bins of a segment have zero weight (C17 quantifies over
         # weights in (0, 1]); keep the weights positive for these steps
         w = cn.data["weight"].values.copy()
@@ -76,6 +76,8 @@ def _run_step(step, cn, procs):
     if step == "segmetrics":
         return segmetrics.do_segmetrics(cn, segs, location_stats=["mean", "median"], spread_stats=["stdev", "mad"],
                                         interval_stats=["ci", "pi"], alpha=0.1, bootstraps=30)
+    if step == "segmetrics_smoothed":      # --smooth-bootstrap: resampling indices and smoothing noise both drawn
+        return segmetrics.do_segmetrics(cn, segs, interval_stats=["ci"], alpha=0.1, bootstraps=30, smoothed=True)
     if step == "bintest":
         return bintest.do_bintest(cn, segs, alpha=0.5)
     if step == "fix":
